@@ -25,6 +25,8 @@ type Clause struct {
 	Ghost  *GhostSet // for site-ghost
 	Index  int       // ordinal among clauses of the same kind in the function
 	KnownF []string
+	Derived bool   // assumed at call sites, not checked in the body (definition of a ghost fact)
+	Detail  string // stable detail used in obligation names (e.g. field:Watch)
 }
 
 // GhostSet is a ghost assignment "set name(args)" (facts become true) or "name := expr".
@@ -42,6 +44,7 @@ type FuncContract struct {
 	Line      int
 	Trusted   bool // contract is assumed, body not verified (dependency or declared trusted)
 	Pure      bool // modifies nothing (heap and ghost)
+	Allocates bool // pure but returns freshly allocated objects
 	Sweep     bool // safety obligations only (zero annotation)
 	SweepTags []string
 	Requires  []*Clause
@@ -259,6 +262,9 @@ func (cs *Contracts) parseFile(path, pkg string, external bool) error {
 			}
 			cur.Pure = true
 			cur.HasMod = true
+			if rest == "allocates" {
+				cur.Allocates = true
+			}
 		case "trusted":
 			if cur == nil {
 				return fail("trusted outside func")
